@@ -121,7 +121,37 @@ def gen_cases(tier, seed):
             first = ir.rename_term(first, {t0: c0})
             first['objs'].append({'t': 'delta', 'up': [t0, c0]})
         terms = [first]
-        if comp and unit_diff:
+        if comp and not unit_diff and r.random() < 0.07:
+            # repeated identical tensors: the partner needs a swap of two indices
+            # that carry the same name and the same pattern in both terms
+            # V^{ij}_{ab} z_ai z_bj  vs  V^{ij}_{ab} z_bi z_aj  (= -first)
+            vname = r.choice(['V', 'g', 'Y'])
+            two = r.choice([('non', 'x'), ('amp', 't2'), ('anti', 'f')])
+            def pair(p_, q_):
+                if two[0] == 'non':
+                    return {'t': 'non', 'name': 'x', 'up': [p_, q_]}
+                if two[0] == 'amp':
+                    return {'t': 'amp', 'name': 't2', 'up': [p_], 'lo': [q_]}
+                return {'t': 'anti', 'name': 'f', 'up': [p_], 'lo': [q_], 'bk': 0}
+            big = {'t': 'amp' if vname == 'Y' else 'anti', 'name': vname,
+                   'up': ['a', 'b'], 'lo': ['i', 'j']}
+            if big['t'] == 'anti':
+                big['bk'] = 0
+            first = {'pref': r.choice(['1', '2', '-1/2']),
+                     'objs': [big, pair('a', 'i'), pair('b', 'j')]}
+            if r.random() < 0.4:     # a spectator with a target index
+                first['objs'].append({'t': 'non', 'name': 'z', 'up': ['k']})
+            targets = ir.term_targets(first)
+            t2 = {'pref': first['pref'],
+                  'objs': [dict(big), pair('b', 'i'), pair('a', 'j')]
+                  + [dict(o_) for o_ in first['objs'][3:]]}
+            t2, sign, _ = g.alpha_rename(t2, targets) if r.random() < 0.5 \
+                else (t2, 1, None)
+            c = r.choice(['1', '-1', '2', '1/3'])
+            t2['pref'] = f"({first['pref']})*({c})*({sign})"
+            terms = [first, t2]
+            assump = {'real': False, 'sym_tensors': [], 'antisym_tensors': []}
+        elif comp and unit_diff:
             t2, sign, _ = g.alpha_rename(first, targets)
             c1, c2 = r.choice([('2', '1'), ('3/2', '1/2'), ('1/2', '-1/2'),
                                ('-1', '-2'), ('1', '2'), ('1', '-1')])
